@@ -126,7 +126,10 @@ def compare_batched(ns, fname, sidx, pidx, pts, res, tag, fail, names_of_interes
                 for v in b[:8]:
                     distinct.add(round(float(v), 9) if v == v else "nan")
                 with numpy.errstate(all="ignore"):
-                    same = (a == b) | (numpy.isnan(a) & numpy.isnan(b)) | (numpy.abs(a - b) <= 1e-12 * numpy.maximum(1.0, numpy.abs(b)))
+                    # a non-finite scalar result marks a point outside the expression's domain (division by zero, overflow); there numpy's
+                    # array and scalar kernels may follow different IEEE conventions ((-inf)**0.5 is +inf for scalars, nan via the sqrt
+                    # fast path for arrays): both non-finite counts as agreement, finite vs non-finite does not
+                    same = (a == b) | (~numpy.isfinite(a) & ~numpy.isfinite(b)) | (numpy.abs(a - b) <= 1e-12 * numpy.maximum(1.0, numpy.abs(b)))
                 if not same.all():
                     i = int(numpy.argmin(same))
                     fail("column-differs", f"{tag}: {fname} [{mode}] column {j} slot {i}: batched {a[i]!r} != scalar {b[i]!r} at {sub[j]}", {"mode": mode, "point": sub[j]})
